@@ -58,6 +58,7 @@ type Exec struct {
 	lastToken     []byte
 	lastTokenAt   time.Time
 	lastTokenPort int
+	lastTokenStream bool
 }
 
 func (x *Exec) fail(props []string, kind, f string, a ...any) {
@@ -94,7 +95,9 @@ func (x *Exec) observe() *Obs {
 	x.w.gen.mu.Unlock()
 	cl := map[int]bool{}
 	for _, c := range x.w.clients {
-		cl[c.Sock.ID] = true
+		if c.Sock != nil {
+			cl[c.Sock.ID] = true
+		}
 	}
 	for _, s := range x.w.extraClientSocks {
 		cl[s.ID] = true
@@ -122,8 +125,33 @@ func (x *Exec) observe() *Obs {
 			o.other = append(o.other, d)
 		}
 	}
+	// what the server wrote on stream control connections, frame by frame, as pseudo-datagrams
+	for _, c := range x.w.clients {
+		if !c.Stream || c.Conn == nil {
+			continue
+		}
+		data, _ := c.Conn.ReadAvailable()
+		c.rbuf = append(c.rbuf, data...)
+		for {
+			k, size, complete := ref.NextFrame(c.rbuf)
+			if k == ref.FrameInvalid {
+				x.fail([]string{"C09", "C10", "C19"}, "server-sent-garbage", "the server wrote bytes that cannot begin a TURN frame on client %d's control connection: %x", c.Idx, c.rbuf[:min(len(c.rbuf), 16)])
+				c.rbuf = nil
+
+				break
+			}
+			if !complete || size == 0 {
+				break
+			}
+			o.s2c = append(o.s2c, &sim.Datagram{Time: time.Now(), From: x.w.srvAddr, To: c.Addr, Data: append([]byte{}, c.rbuf[:size]...), SrcSock: -1})
+			c.rbuf = c.rbuf[size:]
+		}
+	}
 	// drain harness-side sockets (the monitors read the wire log)
 	for _, c := range x.w.clients {
+		if c.Sock == nil {
+			continue
+		}
 		for {
 			if _, _, ok := c.Sock.TryRead(); !ok {
 				break
